@@ -95,6 +95,7 @@ std::vector<ChunkId> ChunkStore::sweep_expired() {
     std::scoped_lock lock(chunks_mutex_);
     const auto now = std::chrono::steady_clock::now();
     std::vector<ChunkId> removed;
+    retry_pending_wipes();
     for (auto it = chunks_.begin(); it != chunks_.end();) {
         if (now >= it->second.expires_at) {
             if (it->second.persisted && wipe_on_expiry_) {
@@ -166,19 +167,22 @@ bool ChunkStore::persist_chunk_to_disk(const std::string& key, const ChunkRecord
     }
 
     const auto path = chunk_path_for_key(key);
+    // The path is rewritten from here on: a wipe still owed for its previous content must not hit the new file.
+    std::erase(pending_wipes_, path);
     if (std::filesystem::exists(path)) {
         secure_wipe_file(path);
     }
 
     std::ofstream stream(path, std::ios::binary | std::ios::trunc);
     if (!stream) {
+        wipe_or_retry_later(path);
         return false;
     }
 
     stream.write(reinterpret_cast<const char*>(record.data.data()), static_cast<std::streamsize>(record.data.size()));
     stream.flush();
     if (!stream) {
-        secure_wipe_file(path);
+        wipe_or_retry_later(path);
         return false;
     }
     return true;
@@ -220,7 +224,19 @@ bool ChunkStore::secure_wipe_file(const std::filesystem::path& path) const {
     return !std::filesystem::exists(path, ec);
 }
 
-void ChunkStore::purge_orphaned_chunk_files() const {
+void ChunkStore::wipe_or_retry_later(const std::filesystem::path& path) {
+    // A wipe can fail (the file cannot be opened for overwriting, or the unlink is refused). The caller is
+    // about to forget the file, so remember it here: every sweep tries again until the file is gone.
+    if (!secure_wipe_file(path)) {
+        pending_wipes_.push_back(path);
+    }
+}
+
+void ChunkStore::retry_pending_wipes() {
+    std::erase_if(pending_wipes_, [this](const std::filesystem::path& path) { return secure_wipe_file(path); });
+}
+
+void ChunkStore::purge_orphaned_chunk_files() {
     // The chunk index and its deadlines live in memory only. A chunk file found at start-up was
     // left by an earlier instance (or by an interrupted store or wipe): no record refers to it, so
     // it could never be served or swept again. Wipe it now instead of keeping it forever.
@@ -234,7 +250,7 @@ void ChunkStore::purge_orphaned_chunk_files() const {
         }
     }
     for (const auto& path : orphans) {
-        secure_wipe_file(path);
+        wipe_or_retry_later(path);
     }
 }
 
@@ -242,7 +258,7 @@ void ChunkStore::wipe_persisted_chunk(const ChunkRecord& record) {
     if (!record.persisted) {
         return;
     }
-    secure_wipe_file(record.file_path);
+    wipe_or_retry_later(record.file_path);
 }
 
 }  
